@@ -276,6 +276,19 @@ class ndarray:
         return self.reshape([d for d in self.shape if d != 1])
 
     def copy(self, order="C"):
+        if order in ("F", "K", "A") and self.ndim > 1:
+            # a copy whose memory order has axis perm[0] slowest ... perm[-1] fastest (F: reversed axes; K: keep the source's stride order)
+            if order == "F" or (order == "A" and self._strides == _cstrides(self.shape[::-1])[::-1] and self._strides != _cstrides(self.shape)):
+                perm = list(range(self.ndim))[::-1]
+            elif order == "K":
+                perm = sorted(range(self.ndim), key=lambda a: (-builtins.abs(self._strides[a]), a))
+            else:
+                perm = list(range(self.ndim))
+            if perm != list(range(self.ndim)):
+                t = self.transpose(perm)
+                base = ndarray._from_list(t._items(), t.shape, self.dtype)
+                inv = [perm.index(a) for a in range(self.ndim)]
+                return base.transpose(inv)
         return ndarray._from_list(self._items(), self.shape, self.dtype)
 
     def __copy__(self):
